@@ -173,7 +173,7 @@ def run(tier, seed, replay=None):
             res.violation("C14/generated-route-families-differ", "set %d: expected %d routes (N+1 families), got %d; first difference: %s" % (
                 si, len(want), len(got), next(((a, b) for a, b in zip(want, got) if a != b), None)), {"set": si})
         res.count("route-families-checked", len(S["names"]) + 1)
-    n_hist = 400 if tier == "quick" else 6000
+    n_hist = 400 if tier == "quick" else 60000
     reqs, plan = [], []
     rid = 0
     for h in range(n_hist):
